@@ -32,7 +32,17 @@ var (
 )
 
 // versions: 0 = absent, 1 = record without advertisement time, 2..4 = t1<t2<t3
-var verTime = []string{"", "", "2024-01-01T00:00:01Z", "2024-01-01T00:00:02Z", "2024-01-01T00:00:03Z"}
+var verTime = verTimeUniform
+
+// Two renderings of the same three instants t1 < t2 < t3. In the uniform one
+// the strings sort like the instants. In the mixed one (a zone offset, UTC,
+// fractional seconds: all of them what an indexer may legitimately report) the
+// strings sort in exactly the opposite order: 10:00Z written as 12:00+02:00,
+// 11:00Z, and 11:00:00.5Z ('.' sorts before 'Z').
+var (
+	verTimeUniform = []string{"", "", "2024-01-01T00:00:01Z", "2024-01-01T00:00:02Z", "2024-01-01T00:00:03Z"}
+	verTimeMixed   = []string{"", "", "2024-01-01T12:00:00+02:00", "2024-01-01T11:00:00Z", "2024-01-01T11:00:00.5Z"}
+)
 
 func verOf(pi *model.ProviderInfo) int {
 	if pi == nil {
@@ -146,12 +156,12 @@ func alphabet(thorough bool) []op {
 // ---- reference model
 
 type pstate struct {
-	best          int       // freshest version ever handed to the cache
-	unreportedAt  time.Time // time of the first successful refresh that did not report it (zero = reported at the last one)
-	everReported  bool
-	failureSince  bool // some source failed / refresh was cut in a refresh since it was last reported
-	negative      bool // known-absent entry expected
-	negAt         time.Time
+	best         int       // freshest version ever handed to the cache
+	unreportedAt time.Time // time of the first successful refresh that did not report it (zero = reported at the last one)
+	everReported bool
+	failureSince bool // some source failed / refresh was cut in a refresh since it was last reported
+	negative     bool // known-absent entry expected
+	negAt        time.Time
 }
 
 type refModel struct {
@@ -413,9 +423,19 @@ func pname(pid peer.ID) string {
 	return "U"
 }
 
+var keyPrefix = ""
+
+func mustParse(s string) time.Time {
+	t, err := time.Parse(time.RFC3339, s)
+	if err != nil {
+		panic(err)
+	}
+	return t
+}
+
 func TestCheck(t *testing.T) {
 	r := vp.New("C06", "model_checking",
-		"every sequence of <= depth operations over the alphabet {per-source content changes of provider P (appear, advance, regress on the other source, disappear, without time) and Q, source failure toggles, Refresh, Refresh cancelled while source 0 / source 1 is being read, Refresh overlapped by a second Refresh issued inside a source call, Get of P / Q / a never-reported provider, List, clock advances of ttl/2 and ttl+1s}, each run on a fresh real ProviderCache with two fake sources inside a synctest bubble (virtual clock), compared after every step with a reference model (freshest record ever handed to the cache per provider, first-unreported time, negative entries, Fetch call counts); plus a lifecycle layer of macro steps (change what the sources report for one provider, let 0 / ttl/2 / ttl+1s pass, Refresh): every sequence of 6 (quick) / 7 (thorough) macro steps with one source and of 4 / 5 with two sources, which reaches appear - disappear - reappear - expire histories of 15-25 flat operations. states = distinct sequences; transitions = operations executed; traces = sequences executed on the real cache.",
+		"every sequence of <= depth operations over the alphabet {per-source content changes of provider P (appear, advance, regress on the other source, disappear, without time) and Q, source failure toggles, Refresh, Refresh cancelled while source 0 / source 1 is being read, Refresh overlapped by a second Refresh issued inside a source call, Get of P / Q / a never-reported provider, List, clock advances of ttl/2 and ttl+1s}, each run on a fresh real ProviderCache with two fake sources inside a synctest bubble (virtual clock), compared after every step with a reference model (freshest record ever handed to the cache per provider, first-unreported time, negative entries, Fetch call counts); plus a lifecycle layer of macro steps (change what the sources report for one provider, let 0 / ttl/2 / ttl+1s pass, Refresh): every sequence of 6 (quick) / 7 (thorough) macro steps with one source and of 4 / 5 with two sources, which reaches appear - disappear - reappear - expire histories of 15-25 flat operations; and the flat sequences once more, one operation shallower, with the three advertisement times rendered with a zone offset, in UTC and with fractional seconds, so that the strings sort in the opposite order of the instants. states = distinct sequences; transitions = operations executed; traces = sequences executed on the real cache.",
 		"reference model is the oracle (trusted; written from the statement); nothing is asserted right after a refresh that returned an error, only after the next successful one",
 		"expiry is asserted only in histories in which every source responded in every refresh since the provider was last reported",
 		"records are compared by advertisement time, not identity (equal times are not ordered by the statement)",
@@ -441,7 +461,7 @@ func TestCheck(t *testing.T) {
 			return
 		}
 		if len(seq) > 0 {
-			key := "seq|" + seqName(seq)
+			key := keyPrefix + "seq|" + seqName(seq)
 			// a sequence is worth running only if it ends in an observing operation
 			last := seq[len(seq)-1].kind
 			if (last == "refresh" || last == "get" || last == "overlap" || last == "cancel" || last == "list") && r.Mine(key) {
@@ -485,6 +505,20 @@ func TestCheck(t *testing.T) {
 	}
 	rec(nil)
 	lifecycle(t, r, thorough)
+	// second pass, one operation shallower, with the mixed rendering of the
+	// advertisement times ("most recent" is about the instant, not the string)
+	verTime = verTimeMixed
+	for i := 2; i <= 4; i++ {
+		a, errA := time.Parse(time.RFC3339, verTimeUniform[i])
+		b, errB := time.Parse(time.RFC3339, verTimeMixed[i])
+		if errA != nil || errB != nil || (i > 2 && !mustParse(verTimeMixed[i]).After(mustParse(verTimeMixed[i-1]))) {
+			panic(fmt.Sprint("time tables inconsistent: ", a, b, errA, errB))
+		}
+	}
+	depth--
+	keyPrefix = "mixed-times|"
+	rec(nil)
+	verTime, keyPrefix = verTimeUniform, ""
 	t.Logf("violations: %d", r.Violations())
 }
 
@@ -494,9 +528,9 @@ func TestCheck(t *testing.T) {
 // depth the flat alphabet cannot afford. One and two sources.
 func lifecycle(t *testing.T, r *vp.Recorder, thorough bool) {
 	type macro struct {
-		name     string
-		s0, s1   int // version to set at source 0 / 1; -1 = leave as is
-		dur      time.Duration
+		name   string
+		s0, s1 int // version to set at source 0 / 1; -1 = leave as is
+		dur    time.Duration
 	}
 	var one, two []macro
 	for _, v := range []struct {
